@@ -19,6 +19,19 @@ func genU16(t *rapid.T, label string) uint16 {
 	}
 }
 
+// genPhoneBytes: a phone field as it may appear on the wire - mostly decimal BCD, sometimes arbitrary bytes
+// (nibbles a..f are rendered as lower-case letters; pinned by the repository's TestBcd2Dec).
+func genPhoneBytes(t *rapid.T, n int, label string) []byte {
+	if rapid.IntRange(0, 7).Draw(t, label+"_hex") != 0 {
+		return genPhoneBCD(t, n, label)
+	}
+	out := make([]byte, n)
+	for i := range out {
+		out[i] = rapid.SampledFrom([]byte{0xff, 0xff, 0xa0, 0x0a, 0xfe, 0x7e, 0x7d, 0x12, 0x00, 0x9f, 0xf9}).Draw(t, label+"_x")
+	}
+	return out
+}
+
 func genPhoneBCD(t *rapid.T, n int, label string) []byte {
 	k := rapid.IntRange(0, 9).Draw(t, label+"_k")
 	out := make([]byte, n)
@@ -135,7 +148,7 @@ func genSpec(t *rapid.T, label string, bodyLen int) specCase {
 	if s.Version2019 {
 		n = 10
 	}
-	s.Phone = genPhoneBCD(t, n, label+"_phone")
+	s.Phone = genPhoneBytes(t, n, label+"_phone")
 	s.Serial = genU16(t, label+"_serial")
 	if s.Fragmented {
 		s.Total = uint16(rapid.IntRange(1, 300).Draw(t, label+"_total"))
